@@ -326,7 +326,7 @@ func descD(v ssa.Value, d int) string {
 // descNoBase strips the leading base ("param:s.", "local:x.") so that "param:s.opts.synced"
 // can be matched as a field path suffix.
 func hasFieldSuffix(d, suffix string) bool {
-	return d == suffix || strings.HasSuffix(d, "."+suffix)
+	return d == suffix || strings.HasSuffix(d, "."+suffix) || d == "param:"+suffix || d == "local:"+suffix || d == "free:"+suffix
 }
 
 // ---------------------------------------------------------------------------------------------
